@@ -183,6 +183,8 @@ def gen_case(world, tier, prop):
       for nm in NAMES[fn]:
         if rng.random() < 0.55:
           kwargs[nm] = value(depth)
+        elif rng.random() < 0.12:
+          kwargs[nm] = 'd_' + nm     # explicitly set to (what usually is) the default
     bt = 'Config' if rng.random() < 0.85 else 'Partial'
     return {'node': {'btype': bt, 'fn': fn, 'args': args, 'kwargs': kwargs}}
 
